@@ -332,6 +332,9 @@ fn hook_lock_point(site: &'static str, would_block: &dyn Fn() -> bool) {
     }
     while would_block() {
         if cur == CONTROLLER || suppressed() {
+            if std::env::var_os("DSIM_BT").is_some() {
+                eprintln!("controller lock backtrace:\n{}", std::backtrace::Backtrace::force_capture());
+            }
             panic!("harness error: controller would block on a lock at {site}");
         }
         let r = suspend(Yield::LockBusy(site));
